@@ -32,121 +32,189 @@ theorem specEval_extend (D : Dataset) (g : Graph) (_σ : Row n) (p : Alg) (v : N
   | none =>
     cases he : Spec.evalExpr D g Row.empty μ e <;> simp [extendStepS, hv, he]
 
-theorem pushdown_fragment {D : Dataset} (hD : (D.named.map (·.1)).Nodup) : ∀ (P : Alg), P.inFragment = true →
-    P.safe = true → (∀ v ∈ P.allVars, v < n) → ∀ (g : Graph) (μ0 : Row n),
+/-- the solutions of `push μ0 A` bind only what `μ0` or a solution of `A` binds -/
+theorem domIn_of_mem_push {μ0 x : Row n} {A : List (Row n)} {ctx must may : List Nat} (h0 : μ0.domIn ctx)
+    (hA : ∀ μ ∈ A, BoundsOK μ must may) (hx : x ∈ push μ0 A) : x.domIn (ctx ++ may) := by
+  simp only [push, List.mem_filterMap, pushOne] at hx
+  obtain ⟨μ1, hμ1, h⟩ := hx
+  split at h
+  · cases h
+    exact Row.domIn_merge h0 (hA μ1 hμ1)
+  · cases h
+
+/-- THE INDUCTION (context-sensitive): where `P.safeIn ctx` holds, rdflib's top-down evaluation of `P` under any
+    pushed-in bindings `μ0` that bind at most the variables `ctx` is the bottom-up evaluation joined with `μ0` -/
+theorem pushdown_induction {D : Dataset} (hD : (D.named.map (·.1)).Nodup) : ∀ (P : Alg) (ctx : List Nat),
+    P.safeIn ctx = true → (∀ v ∈ P.allVars, v < n) → ∀ (g : Graph) (μ0 : Row n), μ0.domIn ctx →
       (Model.evalPart D g μ0 P).Perm (push μ0 (Spec.eval D g Row.empty P))
-  | .bgp tps, _, _, _, g, μ0 => by
+  | .bgp tps, _, _, _, g, μ0, _ => by
     simp only [Model.evalPart, Spec.eval]
     exact pushdown_bgp g μ0 tps
-  | .join true a b, hf, hs, hws, g, μ0 => by
-    simp only [Alg.inFragment, Bool.and_eq_true] at hf
-    simp only [Alg.safe, Bool.and_eq_true] at hs
+  | .join true a b, ctx, hs, hws, g, μ0, h0 => by
+    simp only [Alg.safeIn, Bool.and_eq_true, if_true] at hs
+    have hwsa : ∀ v ∈ a.allVars, v < n := fun v hv => hws v (by simp [Alg.allVars, hv])
     simp only [Model.evalPart, Spec.eval]
     exact pushdown_join_lazy
-      (pushdown_fragment hD a hf.1 hs.1 (fun v hv => hws v (by simp [Alg.allVars, hv])) g μ0)
-      (fun x => pushdown_fragment hD b hf.2 hs.2 (fun v hv => hws v (by simp [Alg.allVars, hv])) g x)
-  | .join false a b, hf, hs, hws, g, μ0 => by
-    simp only [Alg.inFragment, Bool.and_eq_true] at hf
-    simp only [Alg.safe, Bool.and_eq_true] at hs
+      (pushdown_induction hD a ctx hs.1 hwsa g μ0 h0)
+      (fun x hx => pushdown_induction hD b (ctx ++ a.may) hs.2 (fun v hv => hws v (by simp [Alg.allVars, hv])) g x
+        (domIn_of_mem_push h0 (fun μ hμ => spec_bounds a (Alg.inFragment_true a) hwsa g μ hμ) hx))
+  | .join false a b, ctx, hs, hws, g, μ0, h0 => by
+    simp only [Alg.safeIn, Bool.and_eq_true, Bool.false_eq_true, if_false] at hs
     simp only [Model.evalPart, Spec.eval]
     exact pushdown_join_strict
-      (pushdown_fragment hD a hf.1 hs.1 (fun v hv => hws v (by simp [Alg.allVars, hv])) g μ0)
-      (pushdown_fragment hD b hf.2 hs.2 (fun v hv => hws v (by simp [Alg.allVars, hv])) g μ0)
-  | .union a b, hf, hs, hws, g, μ0 => by
-    simp only [Alg.inFragment, Bool.and_eq_true] at hf
-    simp only [Alg.safe, Bool.and_eq_true] at hs
+      (pushdown_induction hD a ctx hs.1 (fun v hv => hws v (by simp [Alg.allVars, hv])) g μ0 h0)
+      (pushdown_induction hD b ctx hs.2 (fun v hv => hws v (by simp [Alg.allVars, hv])) g μ0 h0)
+  | .union a b, ctx, hs, hws, g, μ0, h0 => by
+    simp only [Alg.safeIn, Bool.and_eq_true] at hs
     simp only [Model.evalPart, Spec.eval]
     exact pushdown_union
-      (pushdown_fragment hD a hf.1 hs.1 (fun v hv => hws v (by simp [Alg.allVars, hv])) g μ0)
-      (pushdown_fragment hD b hf.2 hs.2 (fun v hv => hws v (by simp [Alg.allVars, hv])) g μ0)
-  | .filter e p vars noIso, hf, hs, hws, g, μ0 => by
-    simp only [Alg.inFragment] at hf
-    simp only [Alg.safe, Bool.and_eq_true, Bool.not_eq_true'] at hs
+      (pushdown_induction hD a ctx hs.1 (fun v hv => hws v (by simp [Alg.allVars, hv])) g μ0 h0)
+      (pushdown_induction hD b ctx hs.2 (fun v hv => hws v (by simp [Alg.allVars, hv])) g μ0 h0)
+  | .filter e p vars noIso, ctx, hs, hws, g, μ0, h0 => by
+    simp only [Alg.safeIn, Bool.and_eq_true, Bool.not_eq_true'] at hs
     obtain ⟨⟨⟨hps, hes⟩, hni⟩, hsc⟩ := hs
     subst hni
     have hwsp : ∀ v ∈ p.allVars, v < n := fun v hv => hws v (by simp [Alg.allVars, hv])
     simp only [Model.evalPart, Spec.eval, Bool.false_eq_true, if_false]
-    exact pushdown_filter (pushdown_fragment hD p hf hps hwsp g μ0) (exprOK_of_safe e hes g) hsc
-      (fun μ hμ => spec_bounds p hf hwsp g μ hμ)
-  | .extend p v e vars, hf, hs, hws, g, μ0 => by
-    simp only [Alg.inFragment] at hf
-    simp only [Alg.safe, Bool.and_eq_true, Bool.not_eq_true', List.contains_eq_mem, decide_eq_false_iff_not] at hs
+    exact pushdown_filter (pushdown_induction hD p ctx hps hwsp g μ0 h0) (exprOK_of_safe e hes g)
+      (ForgetOK.of_scopeForget h0 hsc) (fun μ hμ => spec_bounds p (Alg.inFragment_true p) hwsp g μ hμ)
+  | .extend p v e vars, ctx, hs, hws, g, μ0, h0 => by
+    simp only [Alg.safeIn, Bool.and_eq_true, Bool.not_eq_true', List.contains_eq_mem, decide_eq_false_iff_not] at hs
     obtain ⟨⟨⟨⟨hps, hes⟩, hvm⟩, _⟩, hsc⟩ := hs
     have hwsp : ∀ v ∈ p.allVars, v < n := fun v hv => hws v (by simp [Alg.allVars, hv])
     rw [evalPart_extend, specEval_extend D g Row.empty]
-    exact pushdown_extend (pushdown_fragment hD p hf hps hwsp g μ0) (exprOK_of_safe e hes g) hsc
-      (fun μ hμ => spec_bounds p hf hwsp g μ hμ) hvm
-  | .values vars rows, _, _, _, g, μ0 => by
+    exact pushdown_extend (pushdown_induction hD p ctx hps hwsp g μ0 h0) (exprOK_of_safe e hes g)
+      (ForgetOK.of_scopeForget h0 hsc) (fun μ hμ => spec_bounds p (Alg.inFragment_true p) hwsp g μ hμ) hvm
+  | .values vars rows, _, _, _, g, μ0, _ => by
     simp only [Model.evalPart, Spec.eval]
     exact List.Perm.of_eq (pushdown_values μ0 vars rows)
-  | .leftJoin a b e p1vars p2vars, hf, hs, hws, g, μ0 => by
-    simp only [Alg.inFragment, Bool.and_eq_true] at hf
+  | .leftJoin a b e p1vars p2vars, ctx, hs, hws, g, μ0, h0 => by
     have hwsa : ∀ v ∈ a.allVars, v < n := fun v hv => hws v (by simp [Alg.allVars, hv])
     have hwsb : ∀ v ∈ b.allVars, v < n := fun v hv => hws v (by simp [Alg.allVars, hv])
     cases p1vars with
-    | none => simp [Alg.safe] at hs
+    | none => simp [Alg.safeIn] at hs
     | some vs =>
-      simp only [Alg.safe, Bool.and_eq_true] at hs
+      simp only [Alg.safeIn, Bool.and_eq_true] at hs
       obtain ⟨⟨⟨⟨has, hbs⟩, hes⟩, hs1⟩, hs2⟩ := hs
       simp only [Model.evalPart, Spec.eval]
-      exact pushdown_leftjoin (XB := fun c => Model.evalPart D g c b)
-        (pushdown_fragment hD a hf.1 has hwsa g μ0)
-        (fun c => pushdown_fragment hD b hf.2 hbs hwsb g c) (exprOK_of_safe e hes g) hs1 hs2
-        (fun μ hμ => spec_bounds a hf.1 hwsa g μ hμ) (fun μ hμ => spec_bounds b hf.2 hwsb g μ hμ)
-  | .minus a b p1vars p2vars, hf, hs, hws, g, μ0 => by
-    simp only [Alg.inFragment, Bool.and_eq_true] at hf
+      exact pushdown_leftjoin (XB := fun c => Model.evalPart D g c b) h0
+        (pushdown_induction hD a ctx has hwsa g μ0 h0)
+        (fun c hc => pushdown_induction hD b (ctx ++ a.may) hbs hwsb g c hc) (exprOK_of_safe e hes g)
+        (ForgetOK.of_scopeForget h0 hs1) (RememberOK.of_scopeRemember h0 hs2)
+        (fun μ hμ => spec_bounds a (Alg.inFragment_true a) hwsa g μ hμ)
+        (fun μ hμ => spec_bounds b (Alg.inFragment_true b) hwsb g μ hμ)
+  | .minus a b p1vars p2vars, ctx, hs, hws, g, μ0, h0 => by
     have hwsa : ∀ v ∈ a.allVars, v < n := fun v hv => hws v (by simp [Alg.allVars, hv])
     have hwsb : ∀ v ∈ b.allVars, v < n := fun v hv => hws v (by simp [Alg.allVars, hv])
     cases p1vars with
-    | none => simp [Alg.safe] at hs
+    | none => simp [Alg.safeIn] at hs
     | some vs =>
-      simp only [Alg.safe, Bool.and_eq_true] at hs
+      simp only [Alg.safeIn, Bool.and_eq_true] at hs
       obtain ⟨⟨⟨has, hbs⟩, hsc⟩, hp2⟩ := hs
       simp only [Model.evalPart, Spec.eval]
-      have hb := pushdown_fragment hD b hf.2 hbs hwsb g (Row.empty : Row n)
+      have hb := pushdown_induction hD b [] hbs hwsb g (Row.empty : Row n) (Row.domIn_empty _)
       rw [push_empty] at hb
-      refine pushdown_minus (pushdown_fragment hD a hf.1 has hwsa g μ0) hb hsc
-        (fun μ hμ => spec_bounds a hf.1 hwsa g μ hμ)
-        (fun y hy v hv => (spec_bounds b hf.2 hwsb g y hy).2 v hv) ?_
+      refine pushdown_minus (pushdown_induction hD a ctx has hwsa g μ0 h0) hb (RememberOK.of_scopeRemember h0 hsc)
+        (fun μ hμ => spec_bounds a (Alg.inFragment_true a) hwsa g μ hμ)
+        (fun y hy v hv => (spec_bounds b (Alg.inFragment_true b) hwsb g y hy).2 v hv) ?_
       intro vs2 h2 v hv
       subst h2
       simp only [List.all_eq_true, List.contains_eq_mem, decide_eq_true_eq] at hp2
       exact hp2 v hv
-  | .graph gp p, hf, hs, hws, g, μ0 => by
-    simp only [Alg.inFragment] at hf
-    simp only [Alg.safe] at hs
+  | .graph gp p, ctx, hs, hws, g, μ0, h0 => by
+    simp only [Alg.safeIn] at hs
     have hwsp : ∀ v ∈ p.allVars, v < n := fun v hv => hws v (by simp [Alg.allVars, hv])
-    have ih := fun gr μ => pushdown_fragment hD p hf hs hwsp gr μ
+    have ih := fun gr => pushdown_induction hD p ctx hs hwsp gr μ0 h0
     simp only [Model.evalPart, Spec.eval, substPos_empty]
     cases gp with
     | const t =>
       simp only [Pos.lookup]
       cases hn : D.isName t with
-      | true => simpa using ih (D.graphOf t) μ0
+      | true => simpa using ih (D.graphOf t)
       | false =>
         have : D.graphOf t = [] := graphOfList_of_not_name D.named t hn
         simp [this, push]
     | var v =>
       simp only [Pos.lookup]
       cases hv : μ0.get v with
-      | none => exact pushdown_graph_unbound v D.named _ _ (fun gr => ih gr μ0)
+      | none => exact pushdown_graph_unbound v D.named _ _ (fun gr => ih gr)
       | some t =>
         simp only []
         rw [push_graph_bound hv D.named hD (fun gr => Spec.eval D gr (Row.empty : Row n) p)]
         show (if ((D.graphOf t).isEmpty && !D.isName t) = true then [] else Model.evalPart D (D.graphOf t) μ0 p).Perm
           (bif D.isName t then push μ0 (Spec.eval D (D.graphOf t) Row.empty p) else [])
         cases hn : D.isName t with
-        | true => simpa using ih (D.graphOf t) μ0
+        | true => simpa using ih (D.graphOf t)
         | false =>
           have : D.graphOf t = [] := graphOfList_of_not_name D.named t hn
           simp [this]
-  | .project p pv, hf, hs, hws, g, μ0 => by
-    simp only [Alg.inFragment] at hf
-    simp only [Alg.safe] at hs
+  | .project p pv, ctx, hs, hws, g, μ0, _ => by
+    simp only [Alg.safeIn] at hs
     have hwsp : ∀ v ∈ p.allVars, v < n := fun v hv => hws v (by simp [Alg.allVars, hv])
     simp only [Model.evalPart, Spec.eval, Row.restrict_empty]
-    have hp := pushdown_fragment hD p hf hs hwsp g (Row.empty : Row n)
+    have hp := pushdown_induction hD p [] hs hwsp g (Row.empty : Row n) (Row.domIn_empty _)
     rw [push_empty] at hp
     exact pushdown_project pv hp
+
+/-- exact annotations are safe in every context -/
+theorem Alg.safeIn_of_safe : ∀ (P : Alg) (ctx : List Nat), P.safe = true → P.safeIn ctx = true
+  | .bgp _, _, _ => rfl
+  | .join lz a b, ctx, h => by
+    simp only [Alg.safe, Bool.and_eq_true] at h
+    simp only [Alg.safeIn, Bool.and_eq_true]
+    exact ⟨Alg.safeIn_of_safe a ctx h.1, Alg.safeIn_of_safe b _ h.2⟩
+  | .union a b, ctx, h => by
+    simp only [Alg.safe, Bool.and_eq_true] at h
+    simp only [Alg.safeIn, Bool.and_eq_true]
+    exact ⟨Alg.safeIn_of_safe a ctx h.1, Alg.safeIn_of_safe b ctx h.2⟩
+  | .filter e p vars noIso, ctx, h => by
+    simp only [Alg.safe, Bool.and_eq_true] at h
+    obtain ⟨⟨⟨hp, he⟩, hn⟩, hsc⟩ := h
+    simp only [Alg.safeIn, Bool.and_eq_true]
+    exact ⟨⟨⟨Alg.safeIn_of_safe p ctx hp, he⟩, hn⟩, scopeForget_of_scopeOK hsc⟩
+  | .extend p v e vars, ctx, h => by
+    simp only [Alg.safe, Bool.and_eq_true] at h
+    obtain ⟨⟨⟨⟨hp, he⟩, h1⟩, h2⟩, hsc⟩ := h
+    simp only [Alg.safeIn, Bool.and_eq_true]
+    exact ⟨⟨⟨⟨Alg.safeIn_of_safe p ctx hp, he⟩, h1⟩, h2⟩, scopeForget_of_scopeOK hsc⟩
+  | .values _ _, _, _ => rfl
+  | .project p _, _, h => by
+    simp only [Alg.safe] at h
+    simp only [Alg.safeIn]
+    exact Alg.safeIn_of_safe p [] h
+  | .graph _ p, ctx, h => by
+    simp only [Alg.safe] at h
+    simp only [Alg.safeIn]
+    exact Alg.safeIn_of_safe p ctx h
+  | .minus a b p1vars p2vars, ctx, h => by
+    cases p1vars with
+    | none => simp [Alg.safe] at h
+    | some vs =>
+      simp only [Alg.safe, Bool.and_eq_true] at h
+      obtain ⟨⟨⟨ha, hb⟩, hsc⟩, hp2⟩ := h
+      simp only [Alg.safeIn, Bool.and_eq_true]
+      exact ⟨⟨⟨Alg.safeIn_of_safe a ctx ha, Alg.safeIn_of_safe b [] hb⟩, scopeRemember_of_scopeOK hsc⟩, hp2⟩
+  | .leftJoin a b e p1vars p2vars, ctx, h => by
+    cases p1vars with
+    | none => simp [Alg.safe] at h
+    | some vs =>
+      simp only [Alg.safe, Bool.and_eq_true] at h
+      obtain ⟨⟨⟨⟨ha, hb⟩, he⟩, hs1⟩, hs2⟩ := h
+      simp only [Alg.safeIn, Bool.and_eq_true]
+      exact ⟨⟨⟨⟨Alg.safeIn_of_safe a ctx ha, Alg.safeIn_of_safe b _ hb⟩, he⟩, scopeForget_of_scopeOK hs1⟩,
+        scopeRemember_of_scopeOK hs2⟩
+
+/-- every row over `n` variables binds only variables `< n` -/
+theorem Row.domIn_range (μ : Row n) : μ.domIn (List.range n) := by
+  intro v hv
+  by_cases h : v < n
+  · exact List.mem_range.mpr h
+  · rw [Row.get_of_ge (Nat.le_of_not_lt h)] at hv; cases hv
+
+/-- the context-free form (hypothesis `Alg.safe`: exact annotations, any pushed-in bindings) -/
+theorem pushdown_fragment {D : Dataset} (hD : (D.named.map (·.1)).Nodup) (P : Alg) (_hf : P.inFragment = true)
+    (hs : P.safe = true) (hws : ∀ v ∈ P.allVars, v < n) (g : Graph) (μ0 : Row n) :
+    (Model.evalPart D g μ0 P).Perm (push μ0 (Spec.eval D g Row.empty P)) :=
+  pushdown_induction hD P (List.range n) (Alg.safeIn_of_safe P _ hs) hws g μ0 (Row.domIn_range μ0)
 
 end RV.C04
